@@ -139,3 +139,46 @@ fn native_enum_leaf_op_rewrites_preserve_view() {
     }
     assert!(cases > 1500);
 }
+
+/// Bounded native enumeration (not a proof) of `BaseLeaf::find_key` - the contract Verus unit v20
+/// assumes for it (slice::binary_search_by with a closure) - on the real five-cell leaf: for every
+/// cursor position and every probe key (each cell's key, a key just below and just above each, the
+/// smallest and the largest key) such that the keys below the cursor are smaller than the probe:
+/// None exactly at the end of the node; otherwise (true, index of the key) with the cursor moved past
+/// it, or (false, index of the first bigger key) with the cursor on it.
+#[cfg(test)]
+#[test]
+fn native_enum_leaf_find_key_contract() {
+    let (_, cells) = native_base_leaf();
+    let keys: Vec<Key> = cells.iter().map(|c| c.0).collect();
+    let n = keys.len();
+    let mut probes: Vec<Key> = vec![[0u8; 32], [0xFF; 32]];
+    for k in &keys {
+        probes.push(*k);
+        let mut below = *k;
+        below[30] -= 1;
+        probes.push(below);
+        let mut above = *k;
+        above[31] = 1;
+        probes.push(above);
+    }
+    let mut cases = 0;
+    for probe in &probes {
+        for low in 0..=n {
+            if keys[..low].iter().any(|k| k >= probe) { continue; }
+            let (mut base, _) = native_base_leaf();
+            base.low = low;
+            let r = base.find_key(probe);
+            let want_pos = keys.iter().position(|k| k >= probe).unwrap_or(n);
+            let want_found = want_pos < n && keys[want_pos] == *probe;
+            if low == n {
+                assert!(r.is_none() && base.low == low, "find_key at the end of the node returned {:?}", r);
+            } else {
+                assert!(r == Some((want_found, want_pos)), "BaseLeaf::find_key(low={}) = {:?}, expected ({}, {})", low, r, want_found, want_pos);
+                assert!(base.low == if want_found { want_pos + 1 } else { want_pos }, "cursor after find_key");
+            }
+            cases += 1;
+        }
+    }
+    assert!(cases > 30, "only {} cases", cases);
+}
